@@ -17,6 +17,7 @@ import (
 	"strings"
 
 	"golang.org/x/tools/go/ssa"
+	"golang.org/x/tools/go/ssa/ssautil"
 )
 
 // localNames: debug name -> fingerprints of its defining values, for one function.
@@ -137,6 +138,7 @@ func writeLocals(prop string, fns []*ssa.Function) {
 			lines = append(lines, fmt.Sprintf("%s\t%s\t%s", fn.String(), n, strings.Join(names[n], ";")))
 		}
 	}
+	sort.Strings(lines)
 	_ = os.WriteFile(localsPath(prop), []byte(strings.Join(lines, "\n")+"\n"), 0o644)
 }
 
@@ -189,4 +191,48 @@ func renamedLocals(fn *ssa.Function, recorded map[string]string) map[string]stri
 		}
 	}
 	return alias
+}
+
+func funcsPath(prop string) string { return filepath.Join(verifDir, "locks", prop+".funcs") }
+
+// writeFuncs records the named functions of the packages that hold the functions under contract (called when the lock is
+// written): a function that is not in this list at a later check was added since (see Gen.extractedFn).
+func (g *Gen) writeFuncs(prop string, fns []*ssa.Function) {
+	pkgs := map[*ssa.Package]bool{}
+	for _, fn := range fns {
+		if fn != nil && fn.Pkg != nil {
+			pkgs[fn.Pkg] = true
+		}
+	}
+	var lines []string
+	for p := range pkgs {
+		lines = append(lines, "pkg\t"+p.Pkg.Path())
+	}
+	for fn := range ssautil.AllFunctions(g.prog) {
+		if fn.Pkg == nil || !pkgs[fn.Pkg] || fn.Parent() != nil || fn.Synthetic != "" {
+			continue
+		}
+		lines = append(lines, "func\t"+fn.String())
+	}
+	sort.Strings(lines)
+	_ = os.WriteFile(funcsPath(prop), []byte(strings.Join(lines, "\n")+"\n"), 0o644)
+}
+
+func (g *Gen) loadFuncs(prop string) {
+	g.recordedFuncs, g.recordedPkgs = map[string]bool{}, map[string]bool{}
+	b, err := os.ReadFile(funcsPath(prop))
+	if err != nil {
+		return
+	}
+	for _, l := range strings.Split(string(b), "\n") {
+		f := strings.SplitN(l, "\t", 2)
+		if len(f) != 2 {
+			continue
+		}
+		if f[0] == "pkg" {
+			g.recordedPkgs[f[1]] = true
+		} else {
+			g.recordedFuncs[f[1]] = true
+		}
+	}
 }
